@@ -423,6 +423,8 @@ fn big(a: &Args) {
         // sketches far larger than the stream: singletons and sets dominated by one heavy entry
         ("pmh3", 10000, 1), ("pmh3", 20000, 5), ("pmh3a", 10000, 1), ("pmh3a", 30000, 4), ("pmh2", 10000, 2), ("pmh3asha", 8192, 1),
         ("smh2_u64_fnv", 20000, 2), ("smh_f64_fnv", 30000, 1), ("ss_u32", 30000, 2),
+        // very large sketches (beyond 2^16 positions)
+        ("pmh3", 100000, 5), ("pmh3a", 70001, 3), ("smh_f64_fnv", 70000, 2), ("smh2_u64_fnv", 66000, 3), ("ss_u16", 70000, 2),
     ];
     if thorough {
         plan.push(("ss_u16", 4096, 1000000));
@@ -517,6 +519,10 @@ fn big(a: &Args) {
                 };
                 for p in 0..*m {
                     let mut ok = if sk.regs_public() { got[p] == exp[p] } else { gsig.as_ref().map(|g| g[p] == who[p]).unwrap_or(true) };
+                    // a SuperMinHash item reaches every position, so no position of a non-empty set keeps the initial value
+                    if kind.starts_with("smh_") && got[p] == init_key(&cfg) {
+                        ok = false;
+                    }
                     if let Some(g) = &gsig {
                         if !idents.contains(&g[p]) {
                             ok = false; // placeholder or foreign identity
